@@ -123,7 +123,9 @@ static void split_for_stmt(Chunk *start);
 static inline bool is_past_width(Chunk *pc)
 {
    // allow char to sit at last column by subtracting 1
-   size_t currCol    = pc->GetColumn() + pc->Len() - 1;
+   // (an empty chunk in column 0, e.g. a virtual brace, must not wrap around)
+   size_t endCol     = pc->GetColumn() + pc->Len();
+   size_t currCol    = (endCol > 0) ? endCol - 1 : 0;
    bool   past_width = currCol > options::code_width();
 
    LOG_FMT(LSPLIT, "%s(%d): orig line %zu, orig col %zu, curr col %zu, text '%s', past width %s\n",
